@@ -289,9 +289,37 @@ def faulted_case(prop, seed, idx, tier, step_cap=None):
             cr.add_viols(apply_props(rec, props, st), payload_world(stmt2, plan, props, step_cap))
     if prop not in ("C12", "C18") and rf.chance(0.12):
         nested_variant(prop, rf, stmt2, plan, base, cr, props, st)
+    if prop == "C07":
+        crash_world(seed, idx, stmt, base, cr, props, st)
     if cr.sample is None:
         cr.sample = {"stmt": stmt2, "faults": plan}
     return cr
+
+
+def crash_world(seed, idx, stmt, base, cr, props, st):
+    """A peer crashes: a user objective / constraint function raises at one evaluation (its own seeded stream, so
+    the other worlds of the case are what they were).  The exception belongs to the caller; whatever minimize
+    does with it, a status that documents something else (3 = "the callback asked to stop") must not be issued."""
+    rc = Rng(seed, "crash", "C07", idx)
+    if not rc.chance(0.3):
+        return
+    targets = scenario.gen_targets(stmt)
+    if not targets:
+        return
+    N = max(1, _nevals(base))
+    k = rc.wpick([(2, 1), (2, min(N, 2)), (2, min(N, stmt["n"] + 2)), (6, rc.randint(1, N))])
+    target = "obj" if (stmt.get("obj") is not None and rc.chance(0.5)) else rc.pick(targets)
+    exc = rc.wpick([(5, "stop"), (2, "runtime"), (1, "lookup"), (1, "arith")])
+    plan = [{"kind": "crash", "target": target, "when": {"at": k}, "exc": exc}]
+    rec = run_client(stmt, plan)
+    cr.account(rec, nontrivial_needs_fault=True)
+    if rec.harness_error:
+        return
+    st["c07.crash_worlds"] += 1
+    if rec.ctx.crash_exc is not None:
+        st["c07.crash_fired"] += 1
+        st["c07.crash_escaped" if rec.exc is not None else "c07.crash_result_returned"] += 1
+    cr.add_viols(apply_props(rec, props, st), payload_world(stmt, plan, props))
 
 
 def add_twins(rng, stmt):
